@@ -9,7 +9,11 @@ Tr == ndJsonDeserialize("c05_trace.ndjson")
 Chunk == 100
 E(g, t, sym) == [g |-> g, t |-> t, path |-> <<>>, sym |-> sym]
 Why(ev) ==
-  IF ev.err # "" THEN <<E("top", "top", "error")>>
+  IF ev.ev = "wire" THEN
+     IF ev.err # "" THEN <<E("wire", ev.err, "written-form")>>
+     ELSE LET w == WireOKWhy(ev.wire) \cup WrittenNamesWhy(NFItem(ev.in), ev.wire)
+          IN IF w = {} THEN <<>> ELSE <<E("wire", CHOOSE x \in w : TRUE, "written-form")>>
+  ELSE IF ev.err # "" THEN <<E("top", "top", "error")>>
   ELSE LET want == Dec(ev.doc)
            d1 == Diff(DFItem(want), DFItem(ev.out1))       \* an array of one in a single-item position IS that element
            w == IF ev.wire1.j = "none" THEN {} ELSE WireOKWhy(ev.wire1)
